@@ -132,7 +132,7 @@ class Inliner:
         self.stats = {"inlined_calls": 0, "functions_changed": 0}
 
     # ------------------------------------------------------------ candidates
-    def _callee(self, fi: FuncInfo, call: ast.Call, stack: tuple[str, ...]) -> FuncInfo | None:
+    def _callee(self, fi: FuncInfo, call: ast.Call, stack: tuple[str, ...], generator: bool = False) -> FuncInfo | None:
         if any(isinstance(a, ast.Starred) for a in call.args) or any(k.arg is None for k in call.keywords):
             return None
         t = self.prog.resolve_call(fi, call)
@@ -152,7 +152,9 @@ class Inliner:
         decos = [d for d in callee.decorators if not d.endswith("staticmethod")]
         if decos:
             return None
-        if _is_generator(callee.node):
+        if _is_generator(callee.node) != generator:
+            return None
+        if generator and any(isinstance(n, ast.YieldFrom) for n in walk_no_nested(callee.node)):
             return None
         if sum(1 for _ in stmts_no_nested(callee.node.body)) > MAX_STMTS:
             return None
@@ -182,8 +184,11 @@ class Inliner:
         return None
 
     # -------------------------------------------------------------- splicing
-    def _expand(self, fi: FuncInfo, callee: FuncInfo, call: ast.Call, target: ast.expr | None, stack: tuple[str, ...], depth: int) -> list[ast.stmt]:
-        """Statements equivalent to `target = callee(args)`."""
+    def _expand(self, fi: FuncInfo, callee: FuncInfo, call: ast.Call, target: ast.expr | None, stack: tuple[str, ...], depth: int,
+                collect: str | None = None) -> list[ast.stmt]:
+        """Statements equivalent to `target = callee(args)`. With `collect` (a fresh list variable name) the callee is a
+        generator whose values are all consumed at once (list(gen(...))): `yield v` becomes `collect.append(v)`, `return`
+        leaves the spliced body."""
         self.counter += 1
         tag = f"__i{self.counter}_"
         fn = clone(callee.node)
@@ -241,8 +246,17 @@ class Inliner:
             def visit_Lambda(self, node):
                 return node
 
+            def visit_Expr(self, node: ast.Expr):
+                if collect is not None and isinstance(node.value, ast.Yield):
+                    v = node.value.value if node.value.value is not None else ast.Constant(value=None)
+                    app = ast.Call(func=ast.Attribute(value=ast.Name(id=collect, ctx=ast.Load()), attr="append", ctx=ast.Load()), args=[v], keywords=[])
+                    return ast.copy_location(ast.Expr(value=app), node)
+                return node
+
             def visit_Return(self, node: ast.Return):
                 out: list[ast.stmt] = []
+                if collect is not None:
+                    return [ast.copy_location(ast.Break(), node)]
                 val = node.value if node.value is not None else ast.Constant(value=None)
                 if target is not None:
                     split = False
@@ -263,6 +277,12 @@ class Inliner:
                 out.append(ast.copy_location(ast.Break(), node))
                 return out
 
+        if collect is not None:
+            # only statement-level yields are understood
+            stmt_yields = sum(1 for n in walk_no_nested(fn) if isinstance(n, ast.Expr) and isinstance(n.value, ast.Yield))
+            all_yields = sum(1 for n in walk_no_nested(fn) if isinstance(n, ast.Yield))
+            if stmt_yields != all_yields:
+                raise _NoInline("yield used as an expression")
         # returns inside loops of the helper would `break` the wrong loop: refuse those helpers
         for loop in [n for n in walk_no_nested(fn) if isinstance(n, (ast.For, ast.While, ast.AsyncFor))]:
             if any(isinstance(r, ast.Return) for r in walk_no_nested(loop)):
@@ -273,6 +293,20 @@ class Inliner:
             r = rr.visit(s)
             new_body += r if isinstance(r, list) else [r]
         falls_through = not isinstance(last, (ast.Return, ast.Raise))
+        if collect is not None:
+            # a generator has no result of its own: the collected list is the value
+            body_stmts = list(new_body)
+            if n_ret == 0:
+                stmts = pre + body_stmts
+            else:
+                body_stmts.append(ast.copy_location(ast.Break(), call))
+                stmts = pre + [ast.copy_location(ast.While(test=ast.Constant(value=True), body=body_stmts, orelse=[]), call)]
+            init = ast.copy_location(ast.Assign(targets=[ast.Name(id=collect, ctx=ast.Store())], value=ast.List(elts=[], ctx=ast.Load())), call)
+            stmts = [init] + stmts
+            self.stats["inlined_calls"] += 1
+            if depth < MAX_DEPTH:
+                stmts = self._block(_Ctx(fi, callee), stmts, stack + (callee.qual,), depth + 1)
+            return stmts
         if falls_through:
             # decided on the helper's control-flow graph: does anything but a return reach the exit?
             try:
@@ -379,6 +413,20 @@ class Inliner:
                     setattr(x, fld, go(val, conditional))
                 elif isinstance(val, list):
                     setattr(x, fld, [go(v, conditional) if isinstance(v, ast.AST) else v for v in val])
+            if isinstance(x, ast.Call) and not conditional and isinstance(x.func, ast.Name) and x.func.id in ("list", "tuple") \
+                    and len(x.args) == 1 and not x.keywords and isinstance(x.args[0], ast.Call):
+                g = self._callee(cx.scope, x.args[0], stack, generator=True)
+                if g is not None:
+                    self.counter += 1
+                    acc = f"__r{self.counter}"
+                    try:
+                        pre.extend(self._expand(cx.scope, g, x.args[0], None, stack, depth, collect=acc))
+                    except _NoInline:
+                        return x
+                    res: ast.expr = ast.Name(id=acc, ctx=ast.Load())
+                    if x.func.id == "tuple":
+                        res = ast.Call(func=ast.Name(id="tuple", ctx=ast.Load()), args=[res], keywords=[])
+                    return ast.copy_location(res, x)
             if isinstance(x, ast.Call) and not conditional:
                 c = self._resolve_in(cx, x, stack)
                 if c is not None:
